@@ -34,7 +34,7 @@ def hostile_family(seed, n):
                         k += 1
                 if f.get("group_help") and rnd.random() < 0.5:
                     # (also a header of two lines: bpaf renders the first line as the title, the rest as a block)
-                    f["group_help"] = f["group_help"] + pe(rnd.choice(["\\fB", " .x", "<u>", "'q", "\nsecond line", "\n.second <line>"]))
+                    f["group_help"] = f["group_help"] + pe(rnd.choice(["\\fB", " .x", "<u>", "'q", "\nsecond line", "\n.second <line>", "\n", "\n\n"]))
             t = lvl["tail"]
             for p in t.get("items", []):
                 if rnd.random() < 0.5:
